@@ -25,6 +25,9 @@ type Cell struct {
 	Name  string
 	T     types.Type
 	alias *Ptr // set for view cells over an array embedded in another cell
+	// Global: the cell of a package-level variable (identified by Name: its id depends on when the
+	// package was first touched on the path)
+	Global bool
 }
 
 // OpaqueObj is an object of a foreign type modelled by one term (keys, signatures ...).
